@@ -48,6 +48,8 @@ def oracle_time(terms, y, n, sec):
 
 
 def run(ctx):
+    from rules import shared
+    ctx.include('month_records', shared.month_records)   # leap table, solstice anchor, month memo, memo cells (shared, cached per source hash)
     I = ctx.interp(fuel=30000000)
     t = T(I)
     p = ctx.prog
@@ -100,6 +102,12 @@ def run(ctx):
     scen = []
     for ny_off in (-14, -1, 0, 1, 14):
         scen.append(('newyear=lichun%+d' % ny_off, terms, synthetic_months(Y, lichun + ny_off, 2, prev_months=3)))
+    # Julian-era placement: every term ~12 days earlier in its civil month (Lichun in late January, next year's Xiaohan in late December),
+    # and a far-future placement (terms 9 days later)
+    for nm, sh in (('julian-era', -12), ('far-future', 9)):
+        tmj = typical_terms([Y - 1, Y, Y + 1, Y + 2], shift=dict((i, sh) for i in range(24)))
+        for ny_off in (-10, 3):
+            scen.append(('%s newyear=lichun%+d' % (nm, ny_off), tmj, synthetic_months(Y, tmj[(Y, 3)][0] + ny_off, 2, prev_months=3)))
     days = list(range(CAL.jdn(Y, 1, 1), CAL.jdn(Y, 12, 31) + 1))
 
     def run_day(args):
@@ -136,7 +144,10 @@ def run(ctx):
     sec = dict((i, (i * 3607 + 1234) % 86000 + 100) for i in range(24))
     terms_t = typical_terms([Y - 1, Y, Y + 1, Y + 2], sec=sec)
     scen_t = [('newyear=lichun%+d' % o, terms_t, synthetic_months(Y, lichun + o, 2, prev_months=3)) for o in (-14, 0, 14)]
+    terms_tj = typical_terms([Y - 1, Y, Y + 1, Y + 2], shift=dict((i, -12) for i in range(24)), sec=sec)
+    scen_t.append(('julian-era newyear=lichun+3', terms_tj, synthetic_months(Y, terms_tj[(Y, 3)][0] + 3, 2, prev_months=3)))
     times = crit_times(terms_t)
+    times_by_scen = dict((si, crit_times(sc[1])) for si, sc in enumerate(scen_t))
 
     def run_time(args):
         si, n, s = args
@@ -148,7 +159,7 @@ def run(ctx):
     def orc_time(args):
         si, n, s = args
         return oracle_time(scen_t[si][1], Y, n, s)
-    table(ctx, 'PETE-SCENARIO', 'SixtyCycleHour::from_solar_time', [(si, n, s) for si in range(len(scen_t)) for (n, s) in times], run_time, orc_time,
+    table(ctx, 'PETE-SCENARIO', 'SixtyCycleHour::from_solar_time', [(si, n, s) for si in range(len(scen_t)) for (n, s) in times_by_scen[si]], run_time, orc_time,
           'instant view: the same rule applied at the exact term instant (critical instants around all 12 Jie of a year, 3 new-year positions)',
           lambda a: '%s %s %02d:%02d:%02d' % (scen_t[a[0]][0], '%d-%02d-%02d' % CAL.from_jdn(a[1]), a[2] // 3600, a[2] // 60 % 60, a[2] % 60), fn_site(p, 'SixtyCycleHour::from_solar_time'))
 
